@@ -49,6 +49,9 @@ type Stream struct {
 
 	blocked int // readers currently blocked waiting for bytes
 	reads   int // number of completed Read calls
+
+	eofWithData bool         // the Read that delivers the last bytes of an ended stream returns io.EOF with them
+	emptyAt     map[int]bool // absolute offsets at which one Read returns (0, nil) before the data there
 }
 
 // NewStream returns an empty stream with unlimited credit.
@@ -86,6 +89,35 @@ func (s *Stream) SetSplits(offsets []int) {
 	s.mu.Lock()
 	s.splits = append([]int(nil), offsets...)
 	s.mu.Unlock()
+}
+
+// EOFWithData makes the Read that delivers the last bytes of the stream return
+// io.EOF together with them (as io.Reader allows), if the end is known by then.
+func (s *Stream) EOFWithData(on bool) {
+	s.mu.Lock()
+	s.eofWithData = on
+	s.mu.Unlock()
+}
+
+// EmptyReadsAt makes one Read at each of the absolute offsets return (0, nil)
+// - "nothing happened" - before the bytes at that offset are delivered.
+func (s *Stream) EmptyReadsAt(offsets []int) {
+	s.mu.Lock()
+	s.emptyAt = map[int]bool{}
+	for _, o := range offsets {
+		s.emptyAt[o] = true
+	}
+	s.mu.Unlock()
+}
+
+// WriteFinal appends p and closes the writing side in one step, so that the end
+// of the stream is known when the last bytes are read.
+func (s *Stream) WriteFinal(p []byte) {
+	s.mu.Lock()
+	s.buf = append(s.buf, p...)
+	s.wclosed = true
+	s.mu.Unlock()
+	s.cond.Broadcast()
 }
 
 // CutAt makes the stream end after n bytes in total.
@@ -231,6 +263,11 @@ func (s *Stream) Read(p []byte) (int, error) {
 		}
 		limit, eof := s.avail()
 		if s.rpos < limit {
+			if s.emptyAt[s.rpos] {
+				delete(s.emptyAt, s.rpos)
+				s.reads++
+				return 0, nil
+			}
 			n := limit - s.rpos
 			if n > len(p) {
 				n = len(p)
@@ -255,6 +292,9 @@ func (s *Stream) Read(p []byte) (int, error) {
 			s.rpos += n
 			s.reads++
 			s.cond.Broadcast()
+			if s.eofWithData && eof && s.rpos == limit {
+				return n, io.EOF
+			}
 			return n, nil
 		}
 		if eof {
